@@ -12,6 +12,13 @@ Hash seed (a Python `set` is iterated in an arbitrary order)
                                                  `"Foo.hpp"`/`"foo.hpp"` come out in set order (witness of the repaired defect)
 * `sorted_loops_order_irrelevant`                the generated obligation `allSetLoopsSorted facts` (re-proved by `decide` on the live
                                                  templates every run) gives this for every set-typed loop of every template
+Refused configurations
+* `configuredTargets_perm`, `refusal_set_order_irrelevant`
+                                    `configured_targets` is the ordered target registry filtered by membership in
+                                    `model_fields_set`: the list, and with it *which* "Missing configuration" refusal an incomplete
+                                    `generate` section gets, is the same for every iteration order of that set; walking the set
+                                    instead leaks the order (`bySet_leaks_order`); `wellConfigured_iff_no_refusal` ties it to the
+                                    state machine below
 History
 * `generateGens_state_irrelevant`   a generate call reads only the configurations of the generators of its target
 * `generate_history_free`, `generate_history_free_run`
@@ -200,6 +207,72 @@ theorem sorted_loops_order_irrelevant (facts : List LoopFact) (h : allSetLoopsSo
     exact h f hf
   have hk : (sortKind f.filters).orderFree = true := by simpa [loopOk, hset] using hok
   exact set_order_irrelevant _ hk render s₁ s₂ h₁ h₂ hmem
+
+/-! ### configured targets and the refusal of an incomplete configuration -/
+
+theorem contains_perm (l₁ l₂ : List String) (h : l₁.Perm l₂) (k : String) : l₁.contains k = l₂.contains k := by
+  rw [Bool.eq_iff_iff]
+  simp only [List.contains_iff_mem]
+  exact h.mem_iff
+
+/-- The list of configured targets does not depend on the iteration order of `model_fields_set`. -/
+theorem configuredTargets_perm (registry : List T) (l₁ l₂ : List String) (h : l₁.Perm l₂) :
+    configuredTargets registry l₁ = configuredTargets registry l₂ := by
+  unfold configuredTargets
+  exact List.filter_congr (fun t _ => contains_perm l₁ l₂ h t.key)
+
+/-- **Same refusal under every hash seed**: which "Missing configuration for 'generate.<g>' (required by target '<t>')"
+    an incompletely configured `generate` section gets is a function of the *set* of keys present. -/
+theorem refusal_set_order_irrelevant (registry : List T) (l₁ l₂ : List String) (h : l₁.Perm l₂) :
+    refusal (fun g => l₁.contains g.key) (configuredTargets registry l₁)
+      = refusal (fun g => l₂.contains g.key) (configuredTargets registry l₂) := by
+  rw [configuredTargets_perm registry l₁ l₂ h]
+  have : (fun g : G => l₁.contains g.key) = (fun g : G => l₂.contains g.key) :=
+    funext (fun g => contains_perm l₁ l₂ h g.key)
+  rw [this]
+
+/-- Walking the set instead of the registry leaks its iteration order into the diagnostic: `java` without `jni` and
+    `objc` without `objcpp` — the refusal names whichever comes first in the set. -/
+theorem bySet_leaks_order :
+    refusal (fun g => ["cpp", "java", "objc"].contains g.key) (configuredTargetsBySet T.all ["cpp", "java", "objc"])
+      ≠ refusal (fun g => ["objc", "cpp", "java"].contains g.key) (configuredTargetsBySet T.all ["objc", "cpp", "java"]) := by
+  decide
+
+example : refusal (fun g => ["objc", "cpp", "java"].contains g.key) (configuredTargets T.all ["objc", "cpp", "java"])
+    = some (.java, .jni) := by decide
+
+theorem refusal_none_iff (has : G → Bool) (ts : List T) :
+    refusal has ts = none ↔ ∀ t ∈ ts, ∀ g ∈ t.generators, has g = true := by
+  induction ts with
+  | nil => simp [refusal]
+  | cons t ts ih =>
+    unfold refusal
+    cases hm : missingGen has t with
+    | some g =>
+      simp only [reduceCtorEq, false_iff]
+      intro hall
+      unfold missingGen at hm
+      have hg := List.find?_some hm
+      have hmem := List.mem_of_find?_eq_some hm
+      have := hall t (by simp) g hmem
+      simp [this] at hg
+    | none =>
+      simp only [ih]
+      unfold missingGen at hm
+      rw [List.find?_eq_none] at hm
+      constructor
+      · intro h t' ht' g hg
+        rcases List.mem_cons.mp ht' with rfl | ht'
+        · have := hm g hg; simpa using this
+        · exact h t' ht' g hg
+      · intro h t' ht' g hg
+        exact h t' (List.mem_cons_of_mem _ ht') g hg
+
+/-- the state machine's `wellConfigured` (a parse that is not refused) is exactly "no refusal" -/
+theorem wellConfigured_iff_no_refusal (c : Cfg) :
+    c.wellConfigured = true ↔ refusal (fun g => (c.gens g).isSome) c.targets = none := by
+  rw [refusal_none_iff]
+  simp [Cfg.wellConfigured, Cfg.generators, List.all_eq_true]
 
 /-! ### histories -/
 
